@@ -545,3 +545,102 @@ def encode_helper_tasks(prop):
     ts.append(HelperTask(prop, 'utils.encode_float', 'none', lambda ex: [None], check_encode_float('none'), replay_float))
     ts.append(HelperTask(prop, 'utils.encode_float', 'float', lambda ex: [ex.fresh('value', 'float')], check_encode_float('float'), replay_float))
     return ts
+
+
+# ---- lookup_encode_<TABLE> -----------------------------------------------------------------------------------------
+class LookupEncodeTask(Task):
+    """The generated name -> code functions of a chunk of lookup tables against the database enumeration: every name of the
+    table gives a code the database lists under that name, an absent value and a text that is no name of the table are
+    rejected (never given a code).  The name is concrete per case (the table is finite), the foreign text is symbolic."""
+    def __init__(self, prop, tables):
+        self.prop, self.tables = prop, tables
+        self.name = f'{prop}:lookup_encode[{tables[0]}..{tables[-1]}]'
+
+    def run(self, tier):
+        from spec.canboat import DB
+        from pyvc.sstr import SStr, Atom, str_const
+        out = {'results': [], 'functions': [], 'notes': [], 'bounded': []}
+        r = repo()
+        db = _db()
+        for tname in self.tables:
+            fn = f'pgns.lookup_encode_{tname}'
+            info = r.func(fn)
+            base = f'{self.prop}/{fn}'
+            if info is None:
+                out['results'].append({'obligation': f'{base}/exists', 'kind': 'ensures', 'status': 'refuted', 'backend': 'frontend', 'seconds': 0.0,
+                                       'reason': 'no generated function', 'replay': {'confirmed': True, 'observed': f'no {fn}'}})
+                continue
+            out['functions'].append(info.describe())
+            table = db.lookups[tname]
+            cases = [('absent', None, None)] + [(f'name[{code}]', name, code) for code, name in sorted(table.items())] + [('foreign-text', 'FOREIGN', None)]
+            obs = []
+            for label, value, code in cases:
+                def run(ex, value=value):
+                    if value == 'FOREIGN':
+                        a = SStr([Atom('value')])
+                        for nm in set(table.values()):
+                            e = ex.equals(nm, a)
+                            ex.assume(z3.BoolVal(not e) if isinstance(e, bool) else z3.Not(bool_term(e)))
+                        value = a
+                    return ex._run_body(info, [value], {}, None)
+                try:
+                    results = explore(r, run)
+                except V.Unsupported as u:
+                    out['error'] = f'{fn}[{label}]: outside the modelled subset: {u}'
+                    rp = replay_lookup_encode(tname, None if value is None else value)
+                    if rp.get('confirmed'):
+                        out['results'].append({'obligation': f'{base}[{label}]/bounded-fallback', 'kind': 'bounded', 'status': 'refuted', 'backend': 'native-contract', 'seconds': 0.0, 'model': {}, 'replay': rp})
+                    break
+                for pi, p in enumerate(results):
+                    if code is None:
+                        goal = p.kind == 'raise'
+                        note = f'{"an absent value" if value is None else "a text that is not a name of the table"} is given the code {p.value!r} instead of being rejected'
+                        nm = 'rejected'
+                    else:
+                        v = p.value if p.kind == 'return' else None
+                        goal = p.kind == 'return' and isinstance(v, int) and not isinstance(v, bool) and table.get(v) == value
+                        note = f'name {value!r} (code {code}) gives {v!r}' if p.kind == 'return' else f'name {value!r} raises {p.exc_name()}'
+                        nm = 'gives-a-code-of-that-name'
+                    obs.append((Obligation(f'{base}[{label}]/{nm}/path[{pi}]', list(p.pc), z3.BoolVal(bool(goal)), kind='ensures', func=info.fullname, inputs={}, meta={'note': note}), tname, value))
+            for ob, tn, value in obs:
+                res = discharge(ob, budget(tier))
+                dct = result_dict(res, with_size=False)
+                dct['function'] = info.fullname
+                if res.status == 'refuted':
+                    dct['reason'] = ob.meta.get('note', '')
+                    dct['replay'] = replay_lookup_encode(tn, value)
+                out['results'].append(dct)
+        return out
+
+
+_DB = []
+
+
+def _db():
+    if not _DB:
+        from spec.canboat import DB
+        _DB.append(DB())
+    return _DB[0]
+
+
+def replay_lookup_encode(tname, value):
+    import nmea2000.pgns as P
+    table = _db().lookups[tname]
+    fn = getattr(P, f'lookup_encode_{tname}', None)
+    tries = [value] if value != 'FOREIGN' else ['', ' ', 'no such name', '\x00', 'None', 0, 3, True]
+    for v in tries:
+        try:
+            got = ('return', fn(v))
+        except Exception as e:  # noqa
+            got = ('raise', type(e).__name__)
+        want_ok = (got[0] == 'return' and table.get(got[1]) == v) if (isinstance(v, str) and v in table.values()) else got[0] == 'raise'
+        if not want_ok:
+            return {'confirmed': True, 'inputs': {'table': tname, 'value': repr(v)}, 'observed': list(got),
+                    'expected': 'a code the database lists under that name' if isinstance(v, str) and v in table.values() else 'an exception (no code)',
+                    'how': f'nmea2000.pgns.lookup_encode_{tname}(value) on the working tree'}
+    return {'confirmed': False, 'inputs': {'table': tname, 'value': repr(value)}}
+
+
+def lookup_encode_tasks(prop, per=24):
+    names = sorted(_db().lookups)
+    return [LookupEncodeTask(prop, names[i:i + per]) for i in range(0, len(names), per)]
